@@ -66,10 +66,10 @@ class ContextLM:
 
 
 # ---- the same context LM behind the REAL pero_ocr.decoding.lm_wrapper.LMWrapper / HiddenState ----------------------------------
-# hidden state = one float64 scalar per beam entry: the history in base 64 behind a leading 1 (0 = '</s>', c + 1 = letter c);
+# hidden state = one float64 scalar per beam entry: the history in base 16 behind a leading 1 (0 = '</s>', c + 1 = letter c);
 # initial_h, initial_h_from_line, add_line_end, advance_h0, log_probs are then the wrapper's own code (torch tensors, in-place
 # __setitem__), with exactly the semantics of ContextLM above.
-WBASE = 64
+WBASE = 16          # vocabulary <= 13 symbols; 10 symbols of history (3 lines) stay below 2^53
 
 
 def hist_of_scalar(x):
@@ -170,12 +170,13 @@ def make_line(page, l, kind, nlines, n_total):
         for t in (1, 3, 4):
             probs[t, blank] = 0.98
             probs[t, x] = probs[t, y] = 0.01
-    elif kind == 1:
+    elif kind in (1, 3):
         for t, c in enumerate((x, blank, y, blank, blank)):
             probs[t, :] = 0.0
             probs[t, c] = 0.98
             probs[t, x if c != x else y] = 0.02
-        text = letters[x] + letters[y]
+        # kind 3: confident under the threshold, but the line came without a transcription (page rebuilt from logits alone)
+        text = letters[x] + letters[y] if kind == 1 else None
     logits = None
     if kind == 2 and (PAGES.index(page) + l) % 2 == 1:
         # the other way a line can fail: logits are present but have no frame, so the exception is raised INSIDE the decoder
@@ -206,7 +207,7 @@ def make_page_decoder(carry, kinds, n_total, record=True, flavour=("toy", BEAM))
     lm = make_wrapped_context_lm(2 * n_total) if flavour[0] == "wrapped" else ContextLM(2 * n_total)
     dec = CTCPrefixLogRawNumpyDecoder(letters_for(n_total), flavour[1], lm=lm, lm_scale=1.0)
     rec = RecordingDecoder(dec) if record else dec
-    thr = THRESHOLD if any(k == 1 for k in kinds.values()) else None
+    thr = THRESHOLD if any(k in (1, 3) for k in kinds.values()) else None
     pd = PageDecoder(rec, line_confidence_threshold=thr, carry_h_over=carry)
     if record:
         real_decode_line = pd.decode_line
@@ -275,13 +276,20 @@ def run_history(cfgid, pages, nlines, nk, history, alone=None):
         alone = alone_results(cfgid, pages, nlines, nk)
     inst = {}
     calls = []
+    # "processing the same page twice": for every other configuration a page that comes again in the history is the SAME
+    # PageLayout object (as when a caller re-runs the decoder on a page it holds), otherwise a fresh copy of the page
+    reuse = (cfgid // 2 + len(history)) % 2 == 0
+    held = {}
     for worker, page in history:
         if worker not in inst:
             inst[worker] = make_page_decoder(carry, kinds, n_total, flavour=flavour_of(cfgid))
         pd, rec = inst[worker]
         rec.calls = []
         outcome = "ok"
-        pl = make_page(page, kinds, nlines, n_total)
+        pl = held.get(page) if reuse else None
+        if pl is None:
+            pl = make_page(page, kinds, nlines, n_total)
+            held[page] = pl
         try:
             pd.process_page(pl)
         except Exception as ex:  # part of the observation
@@ -299,7 +307,21 @@ def run_history(cfgid, pages, nlines, nk, history, alone=None):
 
 
 # ------------------------------------------------------------------ the schedule clause: through parse_folder.main()
-PAR = {"cfgid": 0, "pages": "ABC", "nlines": 2, "nk": 2}
+PAR = {"cfgid": 0, "pages": "ABC", "nlines": 2, "nk": 2, "names": None}
+# file ids of the pages in the folder: the tool processes in image-file-name order (a.png, p-2.png, p.png) while the ids sort
+# a, p, p-2 - a resumed run that pairs sorted ids with file-name-ordered images would hand a page the image of another one
+FILE_NAMES = {"A": "a", "B": "p", "C": "p-2"}
+
+
+def file_name_of(page):
+    return (PAR.get("names") or {}).get(page, page)
+
+
+def page_of_file(name):
+    for k, v in (PAR.get("names") or {}).items():
+        if v == name:
+            return k
+    return name
 
 
 class StubOcr:
@@ -310,10 +332,10 @@ class StubOcr:
         _, kinds = decode_cfg(PAR["cfgid"], PAR["pages"], PAR["nlines"], PAR["nk"])
         # the OCR result is a function of the IMAGE the tool handed in (every page image has its own grey value,
         # pf_common.grey_of): a page id paired with another page's image gets that page's lines, as a real OCR would
-        pid = page_layout.id
+        pid = page_of_file(page_layout.id)
         if image is not None:
             from .pf_common import grey_of
-            pid = {grey_of(p): p for p in PAR["pages"]}.get(int(image[0, 0, 0]), pid)
+            pid = {grey_of(file_name_of(p)): p for p in PAR["pages"]}.get(int(image[0, 0, 0]), pid)
         fresh = make_page(pid, kinds, PAR["nlines"], len(PAR["pages"]) * PAR["nlines"])
         page_layout.regions = fresh.regions
         return page_layout
@@ -337,7 +359,7 @@ def read_results(xml_dir, pages):
     import os
     res, conf = {}, {}
     for p in pages:
-        path = os.path.join(xml_dir, p + ".xml")
+        path = os.path.join(xml_dir, file_name_of(p) + ".xml")
         if not os.path.exists(path):
             res[p] = [[98]]
             conf[p] = []
